@@ -163,6 +163,34 @@ def rule_lfs(ctx, rep):
         rep.check(len(xs) == 1 and ir.const_of(f, xs[0].val) == 0 and not wr, "C11.lfs", "%s.%s" % (lib, f.name), "pop_all = one exchange installing NULL", "pop_all is not a single exchange with NULL", [f.name])
 
 
+def rule_cas_exit(ctx, rep):
+    """lock-free push / pop (lfstack and the legacy RCU lfstack): once the compare-and-swap on the head was attempted, the
+    operation returns only through the edge on which the CAS returned the expected value; every other outcome goes round again.
+    A push that leaves its loop after a *failed* CAS reports success for a node that was never linked; a pop would hand out a
+    node that is still on the stack."""
+    m = ctx.mod("cds", "flat")
+    n = 0
+    for name in ("cds_lfs_push", "__cds_lfs_pop", "cds_lfs_push_rcu", "cds_lfs_pop_rcu", "cds_lfs_pop_blocking"):
+        f = m.fn(name)
+        if f is None:
+            raise Broken(name + " vanished")
+        rep.touch(f)
+        for e in pat.accesses(f, None, ("cmpxchg",)):
+            if e.ap is None or e.ap.get("base") != ["a", 0]:
+                continue            # the CAS on the stack (first argument); type punning may name its head word `node.next`
+            n += 1
+            c = e.inst
+            ok_edges = [(t.blk.id, s_) for t, s_, a in pat.branch_edges_on(f, lambda a: a[0] == "eq" and any(isinstance(z, tuple) and z[0] == "asm" and z[-1] == c.id for z in (a[1], a[2])))]
+            # a pop that retried and found the stack empty meanwhile returns NULL: the edge `re-loaded head == NULL`
+            empty = [(t.blk.id, s_) for t, s_, a in pat.branch_edges_on(f, lambda a: a[0] == "eq" and a[2] == ("c", 0) and a[1][0] == "load" and a[1][1].startswith("arg0."))] if "pop" in name else []
+            if not ok_edges:
+                rep.bad("C11.casexit", "%s@%d" % (name, c.id), "the result of the CAS on the stack head does not decide whether %s retries" % name, [c.where()])
+                continue
+            rep.must_take_edge("C11.casexit", "%s@%d" % (name, c.id), f, [c], list(f.rets()), ok_edges + empty, include_start=False, avoid=lambda i, c=c: i is c,
+                               what="after a CAS attempt on the head the operation returns only on the edge where the CAS returned the expected value")
+    pat.require(n >= 3, "only %d head CAS sites" % n)
+
+
 def rule_locked(ctx, rep):
     table = [("_cds_lfs_pop_blocking", "_cds_lfs_pop_lock", "_cds_lfs_pop_unlock", "___cds_lfs_pop"),
              ("_cds_lfs_pop_all_blocking", "_cds_lfs_pop_lock", "_cds_lfs_pop_unlock", "___cds_lfs_pop_all"),
@@ -288,5 +316,8 @@ RULES = [
     ("C11.blocking", rule_blocking),
     ("C11.exported", lambda c, r: c10.rule_exported_locked(c, r, "C11")),
     ("C11.macro", rule_macro),
+    ("C11.exported", lambda c, r: __import__("sa.rules.c10", fromlist=["x"]).rule_wrappers(c, r, "C11.exported", ("lfs", "wfs"))),
+    ("C11.casexit", rule_cas_exit),
+    ("C11.init", lambda c, r: __import__("sa.rules.c10", fromlist=["x"]).rule_inits(c, r, "C11.init", ("cds_wfs_node_init", "cds_wfs_init", "__cds_wfs_init", "cds_lfs_init", "__cds_lfs_init", "cds_lfs_init_rcu"))),
 ]
 FLOORS = {}
